@@ -91,6 +91,16 @@ impl<T> QDLDLFactorisation<T>
 where
     T: FloatT,
 {
+    /// verification hook: the values of the engine's own (permuted) copy of the matrix, mapped back to input order
+    #[cfg(clarabel_verif)]
+    pub fn verif_input_values(&self) -> Vec<f64> {
+        self.workspace
+            .AtoPAPt
+            .iter()
+            .map(|&k| crate::verif::f64_of(self.workspace.triuA.nzval[k]))
+            .collect()
+    }
+
     /// verification hook: the dynamic regularisation this factorisation was configured with (enable, eps, delta)
     #[cfg(clarabel_verif)]
     pub fn verif_reg(&self) -> (bool, f64, f64) {
